@@ -105,6 +105,14 @@ CLAIMED = {
     note="Tiny integer instances only (32-bit exact rationals limit SART to 2 iterations, 3 for 3x1); large / ill-conditioned systems and the OpenCL variant are not exercised; default e^-1 guess not used.",
     technique="TLA+ SART state machine over exact rationals + exact KKT minimisers, TLC-enumerated instances compared with the solvers",
     design="4.11"),
+ "C09": dict(
+    text="IonBalance.tla gives, for an element of atomic number Z with integer ionisation / recombination / thermal-CX rate patterns, donor ratio n_D/n_e in {0, 1/2, 2} and donor charge state, "
+         "the exact rational steady-state populations and checks unit-simplex, neighbour balance and mean-charge invariants (Z <= 8 exact; Z up to 18 rates only). Every instance is run on a mock "
+         "AtomicData through fractional_abundance (scalar, ndarray, Function1D, Function2D + free variables), from_elementdensity, match_plasma_neutrality (charge closure, non-negativity) and the "
+         "1-D interpolator front-ends; results are compared with the exact fractions / balance equations (1e-7) and with each other.",
+    note="Constant (n_e, T_e-independent) rates at physical magnitude (k x 1e-14 m^3/s, n_e = 3e19): with O(1) rates lsq_linear is hopelessly scaled (observed, not asserted); equilibrium-mapped wrappers not exercised.",
+    technique="TLA+ exact rational balance table enumerated by TLC, every entry point x representation compared per instance",
+    design="4.9"),
 }
 
 NOT_YET = {}
